@@ -132,7 +132,7 @@ def choose_bases(ck, classes, level, nbase, rng, workers):
     pp = os.path.join(w, "pool.ndjson")
     vlib.write_ndjson(pp, picks)
     mcfg = os.path.join(w, "mc.cfg")
-    open(mcfg, "w").write("SPECIFICATION Spec\nCONSTANTS\n Level = %d\nCHECK_DEADLOCK FALSE\n" % level)
+    open(mcfg, "w").write("SPECIFICATION Spec\nCONSTANTS\n Level = %d\n Repaired = %s\nCHECK_DEADLOCK FALSE\n" % (level, c08.repaired_tla()))
     res = vlib.run_tlc("MC_NeutralFile", mcfg, workers=workers, env={"PICKS": pp, "JAVA_TOOL_OPTIONS": TLC_JAVA}, timeout=3000)
     if res.violation:
         raise Broken("MC_NeutralFile reports an error:\n" + res.violation)
@@ -168,7 +168,7 @@ def fault_model(ck, picks, level, workers):
     pp = os.path.join(w, "bases.ndjson")
     vlib.write_ndjson(pp, picks)
     mcfg = os.path.join(w, "mcf.cfg")
-    open(mcfg, "w").write("SPECIFICATION Spec\nCONSTANTS\n Level = %d\nCONSTRAINT Emit\nCHECK_DEADLOCK FALSE\n" % level)
+    open(mcfg, "w").write("SPECIFICATION Spec\nCONSTANTS\n Level = %d\n Repaired = %s\nCONSTRAINT Emit\nCHECK_DEADLOCK FALSE\n" % (level, c08.repaired_tla()))
     res = vlib.run_tlc("MC_NeutralFault", mcfg, workers=workers, env={"PICKS": pp, "JAVA_TOOL_OPTIONS": TLC_JAVA}, timeout=6000, heap="8g")
     if res.violation:
         raise Broken("MC_NeutralFault reports an error:\n" + res.violation)
@@ -302,7 +302,7 @@ def judge_objects(ck, recs, tag, workers=1):
     if not recs:
         return {}
     cfg = os.path.join(w, "judge.cfg")
-    open(cfg, "w").write("SPECIFICATION Spec\nCONSTANTS\n Level = 1\nPOSTCONDITION AllExamined\nCHECK_DEADLOCK FALSE\n")
+    open(cfg, "w").write("SPECIFICATION Spec\nCONSTANTS\n Level = 1\n Repaired = %s\nPOSTCONDITION AllExamined\nCHECK_DEADLOCK FALSE\n" % c08.repaired_tla())
     res = vlib.run_tlc("TraceNeutralFault", cfg, workers=1, env={"OBJECTS": tp}, timeout=3000)
     if res.violation or "NOT-ALL-EXAMINED" in res.stdout:
         raise Broken("TraceNeutralFault did not examine all the objects:\n" + (res.violation or res.stdout[-2000:]))
@@ -396,6 +396,8 @@ def exchange_files(ck):
 
 
 def _run(ck, tier):
+    c08.load_known_override(ck, "VERIF_C09_KNOWN")
+    ck.cov["transcription"] = "repaired tree" if c08.repaired() else "tree as first examined"
     vlib.build_lib()
     rng = random.Random(vlib.seed() * 104729 + 9)
     workers = int(os.environ.get("VERIF_TLC_WORKERS", "8"))
@@ -471,7 +473,7 @@ def _run(ck, tier):
         v = file_record({"base": b["base"], "c": b["c"], "kind": "valid", "k": 0, "t": "", "verdict": "MaySucceed",
                          "unsafe": b.get("unsafe", []), "rev": b.get("rev", [])},
                         fid, bases, text=b["orig"] if b["c"] == "Raw" else render(b["lines"], True, b["c"]))
-        v["realok"] = b.get("realok", True) and not (b["c"] == "Raw" and b["fmt"] == "F2G")
+        v["realok"] = b.get("realok", True) and not (b["c"] == "Raw" and b["fmt"] == "F2G" and not c08.repaired())
         valid.append(v)
     t0 = time.time()
     outs, sani = run_loader(ck, files + valid, "main")
